@@ -270,6 +270,12 @@ def runOp (op : String) (a : List String) : Option String :=
   | "ecdh", [d, x, y] => do
     let d ← unnat d; let x ← unnat x; let y ← unnat y
     pure ("ok " ++ hx (Ecies.sharedSecret d (x,y)))
+  | "ecdh.seq", [items] => do
+    let parts ← (items.splitOn ";").mapM fun it =>
+      match it.splitOn ":" with
+      | [d, x, y] => do let d ← unnat d; let x ← unnat x; let y ← unnat y; pure (hx (Ecies.sharedSecret d (x,y)))
+      | _ => none
+    pure ("ok" ++ String.join (parts.map fun p => " " ++ p))
   | "ecies.enc", [x, y, m, t] => do
     let x ← unnat x; let y ← unnat y; let m ← unhex m; let t ← untape t
     pure (match Ecies.encrypt pr (x,y) m t with | some (c, _) => "ok " ++ hx c | none => "err")
